@@ -28,6 +28,8 @@ CHECKS = {
          "Not decided: the post-failure values (previous length and contents) beyond what the ordering implies; multi-step iterator-driven operations; leaks/double drops after failure (see C06)."),
  "C10": ("Every written position value is min-aligned by construction and the aligner helpers have their canonical form (R1, R1c); accounting identities allocated+remaining=capacity, size-capacity=header size and the Stats/AnyStats sum shapes (R2, affine value numbering); typed == type-erased accessors as affine normal forms (R3) and no size-dependent arithmetic on the erased header (R3b); chunk list link protocol (R4); recorded chunk size = aligned granted size (R5).",
          "Not decided: the numbers themselves (position inside the chunk, strict growth of chunk sizes, multiples of 16)."),
+ "C12": ("Claimed narrowly: no plain/wrapping/unchecked + or * in the size computations, plain - only where tabled (R1); failures become None/capacity_overflow, nothing unwrapped (R2); slow path sizes by max(hint for layout, checked doubling) (R3); rounding order and presence of every summand of the capacity hint (overhead, header, bytes + worst-case padding, MIN_CHUNK_ALIGN slack) for up and down, min raise, align_size after the overhead subtraction (R4, value numbering).",
+         "NOT decided (stated plainly): that the rounded number really is >= header + padding + request for all layouts x header layouts x granted sizes; multiples of 16; '>= 2 x previous - 16'. These are value-level and out of reach of a sound static argument here."),
  "C13": ("Settings gates: position writes of deallocate bodies depend on S::DEALLOCATES, of shrink bodies on S::SHRINKS (R1); WithoutDealloc/WithoutShrink are no-ops exactly where promised (R2); reclaim writes the block's boundary, in-place upward grow keeps the address (R3); only tabled operations can move the position backwards (R4).",
          "Not decided: 'the same address again' as a number (needs the arithmetic of C11)."),
  "C02": ("Copy length/source of every reallocation (R1), overlap-aware copies (R2), zeroing extents and zeroed->zeroed forwarding (R3), no raw writes reachable from non-reallocating arena operations (R4).",
